@@ -24,7 +24,7 @@ fn keep(e: &Value) -> bool {
     match n {
         "bEmit" | "hEvent" => true,
         "cbConnEstablished" | "cbConnClosed" => b1,
-        "close" | "behClose" | "behCloseAll" | "disconnect" | "failMux" | "keepAlive" | "panic" | "emitQueued" | "polled" => true,
+        "close" | "behClose" | "behCloseAll" | "disconnect" | "failMux" | "keepAlive" | "panic" | "emitQueued" | "polled" | "ranTask" => true,
         _ => false,
     }
 }
@@ -65,7 +65,8 @@ pub fn main(a: &vcommon::Args) {
             let mut out = Out::create(a.get(3));
             let mut r = vcommon::rng(seed);
             for _ in 0..runs {
-                let cfg = json!({"notify_buffer": r.gen_range(1..=2), "concurrency": 8});
+                let manual = r.gen_bool(0.5);
+                let cfg = json!({"notify_buffer": r.gen_range(1..=2), "concurrency": 8, "manual": manual});
                 let steps = r.gen_range(4..=12);
                 let mut cmds: Vec<Value> = vec![];
                 let mut nconn = 3i64;
@@ -98,7 +99,10 @@ pub fn main(a: &vcommon::Args) {
                             cmds.push(json!({"c": "dial", "peer": 1, "cond": "Always", "addrs": [30 + nconn]}));
                             json!({"c": "envDial", "n": nslots - 1, "ok": true, "who": 1})
                         }
+                        73..=80 if manual => json!({"c": "pollSwarm"}),
+                        81..=86 if manual => json!({"c": "runTask", "k": r.gen_range(0..8)}),
                         73..=89 => json!({"c": "poll"}),
+                        90..=94 if !manual => json!({"c": "pollRaw"}),
                         _ => json!({"c": "poll1"}),
                     };
                     cmds.push(c);
